@@ -12,6 +12,7 @@ import (
 	"strconv"
 	"strings"
 	"sync"
+	"syscall"
 
 	"github.com/pion/stun/v3/verifharness/gen"
 )
@@ -59,6 +60,7 @@ type Ctx struct {
 	OnlySec string // when replaying: run only this section ...
 	OnlyIdx int64  // ... and this index (-1: all)
 	Journal *os.File
+	jmap    []byte // mmap of the journal file: survives a fatal runtime error of this process
 
 	mu       sync.Mutex
 	res      Result
@@ -93,12 +95,47 @@ func (c *Ctx) N(quick, thorough int64) int64 {
 // Replaying is true when a single case is being re-executed.
 func (c *Ctx) Replaying() bool { return c.OnlyIdx >= 0 }
 
+const (
+	journalNoteOff = 128
+	journalSize    = 2<<20 + 4096
+)
+
 func (c *Ctx) journal(sec string, idx int64) {
 	if c.Journal == nil {
 		return
 	}
-	line := fmt.Sprintf("%-40s %20d\n", sec, idx)
+	line := fmt.Sprintf("%-60s %20d\n", sec, idx)
+	if c.jmap == nil {
+		if err := c.Journal.Truncate(journalSize); err == nil {
+			if m, merr := syscall.Mmap(int(c.Journal.Fd()), 0, journalSize, syscall.PROT_READ|syscall.PROT_WRITE, syscall.MAP_SHARED); merr == nil {
+				c.jmap = m
+			}
+		}
+	}
+	if c.jmap != nil {
+		copy(c.jmap[:journalNoteOff], line)
+		c.JournalNote(nil)
+
+		return
+	}
 	_, _ = c.Journal.WriteAt([]byte(line), 0)
+}
+
+// JournalNote records the input about to be executed inside the current case
+// (no system call: it is a store into a shared file mapping, so it costs
+// nanoseconds and is still there after a stack overflow or an abort).
+func (c *Ctx) JournalNote(b []byte) {
+	if c.jmap == nil {
+		return
+	}
+	n := len(b)
+	if n > journalSize-journalNoteOff-8 {
+		n = journalSize - journalNoteOff - 8
+	}
+	for k := 0; k < 8; k++ {
+		c.jmap[journalNoteOff+k] = byte(uint64(n) >> (8 * uint(k)))
+	}
+	copy(c.jmap[journalNoteOff+8:], b[:n])
 }
 
 // Section runs f for every index of [0,n) that belongs to this batch. Each
